@@ -33,7 +33,8 @@ impl FileSystemPackageResolver {
     ) -> Result<IndexMap<BorrowedPackageKey<'a>, Vec<u8>>, Error> {
         let mut packages = IndexMap::new();
         for (key, span) in keys.iter() {
-            let path = match self.overrides.get(key.name) {
+            #[cfg_attr(not(feature = "wit"), allow(unused_variables))]
+            let (path, appended_extension) = match self.overrides.get(key.name) {
                 Some(path) if key.version.is_none() => {
                     if !path.is_file() {
                         return Err(Error::PackageResolutionFailure {
@@ -47,7 +48,7 @@ impl FileSystemPackageResolver {
                         });
                     }
 
-                    path.clone()
+                    (path.clone(), false)
                 }
                 _ => {
                     let mut path = self.root.clone();
@@ -60,19 +61,22 @@ impl FileSystemPackageResolver {
                     }
 
                     // If the path is not a directory, use a `.wasm` or `.wat` extension
-                    if !path.is_dir() {
+                    let appended_extension = !path.is_dir();
+                    if appended_extension {
                         append_extension(&mut path, "wasm");
 
+                        // Prefer a `.wat` *file* (this only replaces the `wasm`
+                        // extension that was just appended)
                         #[cfg(feature = "wat")]
                         {
-                            path.set_extension("wat");
-                            if !path.exists() {
-                                path.set_extension("wasm");
+                            let wat = path.with_extension("wat");
+                            if wat.is_file() {
+                                path = wat;
                             }
                         }
                     }
 
-                    path
+                    (path, appended_extension)
                 }
             };
 
@@ -86,7 +90,8 @@ impl FileSystemPackageResolver {
                     source: e,
                 };
                 let mut resolve = wit_parser::Resolve::new();
-                let pkg = if path.is_dir() {
+                // A directory named `<package>.wasm` or `<package>.wat` is not a package
+                let pkg = if !appended_extension && path.is_dir() {
                     log::debug!(
                         "loading WIT package from directory `{path}`",
                         path = path.display()
